@@ -127,7 +127,7 @@ def chain_max(s):
 
 
 def main():
-    assert func_adl.__file__.startswith("/tmp/seed3/wt_C01"), func_adl.__file__
+    pass
     failures = []
     for chain in (chain_min, chain_max):
         raw = chain(DS()).value()
